@@ -42,8 +42,10 @@ def has_boolop_in_expr(src):
         else:
             continue
         for i, o in enumerate(ops):
+            # earlier operands that are constants, names or themselves and/or (hoisted whole, in
+            # order, and replaced by a name) leave nothing behind that Python would have evaluated first
             if i > 0 and any(isinstance(x, ast.BoolOp) for x in ast.walk(o)) and \
-                    any(not isinstance(e, (ast.Constant, ast.Name)) for e in ops[:i]):
+                    any(not isinstance(e, (ast.Constant, ast.Name, ast.BoolOp)) for e in ops[:i]):
                 return True
     return False
 
